@@ -892,7 +892,7 @@ class Models:
     # std::set<scalar> / std::map<scalar, scalar>: membership is a boolean array of the key; a map keeps its values in the
     # element store of the value type, indexed by the key (so map[k] is an ordinary element l-value)
     def is_scalar_set(self, obj):
-        return isinstance(obj, ObjLV) and obj.ty.kind in ('set', 'map') and obj.ty.args[0].is_scalar() and (obj.ty.kind == 'set' or obj.ty.args[1].is_scalar())
+        return isinstance(obj, ObjLV) and obj.ty.kind in ('set', 'map') and obj.ty.args[0].is_scalar() and (obj.ty.kind == 'set' or obj.ty.args[1].is_scalar() or self.e.is_value_type(obj.ty.args[1]))
 
     def sset_member(self, st, ref):
         return z3.Select(self.e.harr(st, 'sset.member', z3.ArraySort(I, z3.ArraySort(I, B))), ref)
@@ -953,7 +953,7 @@ class Models:
             had = z3.Select(self.sset_member(st, obj.ref), k)
             oldv = e.vec_read(st, obj.ref, k, obj.ty.args[1])
             self.sset_add(st, obj, k)
-            e.vec_write(st, obj.ref, k, obj.ty.args[1], z3.If(had, oldv, val))     # insert does not overwrite
+            e.vec_write(st, obj.ref, k, obj.ty.args[1], merge_vals([had, z3.Not(had)], [oldv, val]))     # insert does not overwrite
             return Opaque('map::insert result')
         self.sset_add(st, obj, e.raw(v))
         return Opaque('set::insert result')
@@ -1030,6 +1030,30 @@ class Models:
             return z3.If(had, z3.IntVal(1), z3.IntVal(0))
         raise Unsupported('set::erase form at %s' % e.where(n, fr))
 
+    # iterators of std::map<scalar, value type>: (map, key, is-end); it->first is the key, it->second the stored value (an element l-value)
+    def smapiter(self, obj, key, end):
+        return Rec('smapiter', {'ref': obj.ref, 'key': key, 'end': end, 'vty': obj.ty.args[1].raw, 'kty': obj.ty.args[0].raw})
+
+    def m_map_find(self, st, obj, bt, args, n, fr):
+        e = self.e
+        if not self.is_scalar_set(obj): raise Unsupported('map::find on %r at %s' % (obj, e.where(n, fr)))
+        k = e.raw(e.rv(args[0], st, fr))
+        return self.smapiter(obj, k, z3.Not(z3.Select(self.sset_member(st, obj.ref), k)))
+
+    def m_map_end(self, st, obj, bt, args, n, fr):
+        if not self.is_scalar_set(obj): raise Unsupported('map::end on %r' % (obj,))
+        return self.smapiter(obj, z3.IntVal(-1), z3.BoolVal(True))
+    m_map_cend = m_map_end
+
+    def m_map_empty(self, st, obj, bt, args, n, fr):
+        return self.m_set_size(st, obj, bt, [], n, fr) == 0
+
+    def smapiter_deref(self, st, p, n, fr):
+        e = self.e
+        if e.safety_on('bounds'):
+            e.oblige(st, 'safety:dereferenced-map-iterator-is-not-end', z3.Not(p.f['end']), where=e.where(n, fr) if n is not None else None)
+        return Rec('pair', {'first': p.f['key'], 'second': ElemLV(p.f['ref'], p.f['key'], TY.parse(p.f['vty']))})
+
     def m_map_index(self, st, obj, bt, args, n, fr):
         e = self.e
         if not self.is_scalar_set(obj): raise Unsupported('map::operator[] on %r at %s' % (obj, e.where(n, fr)))
@@ -1038,7 +1062,7 @@ class Models:
         had = z3.Select(self.sset_member(st, obj.ref), k)
         oldv = e.vec_read(st, obj.ref, k, vty)
         self.sset_add(st, obj, k)
-        e.vec_write(st, obj.ref, k, vty, z3.If(had, oldv, e.zero_value(vty)))      # a missing key is value-initialised
+        e.vec_write(st, obj.ref, k, vty, merge_vals([had, z3.Not(had)], [oldv, e.zero_value(vty)]))      # a missing key is value-initialised
         return ElemLV(obj.ref, k, vty)
 
     def m_set_count(self, st, obj, bt, args, n, fr):
@@ -1184,7 +1208,7 @@ class Models:
             return r
         if name in ('operator==', 'operator!=', 'operator<', 'operator-', 'operator+', 'operator<=', 'operator>', 'operator>=') and len(args) == 2:
             a = e.rv(args[0], st, fr); b = e.rv(args[1], st, fr)
-            if isinstance(a, Rec) and a.t == 'setiter' and isinstance(b, Rec) and b.t == 'setiter' and name in ('operator==', 'operator!='):
+            if isinstance(a, Rec) and a.t in ('setiter', 'smapiter') and isinstance(b, Rec) and b.t == a.t and name in ('operator==', 'operator!='):
                 same = z3.Or(z3.And(a.f['end'], b.f['end']), z3.And(z3.Not(a.f['end']), z3.Not(b.f['end']), a.f['key'] == b.f['key']))
                 return same if name == 'operator==' else z3.Not(same)
             if isinstance(a, Rec) and a.t == 'optional' and isinstance(b, Opaque): return a.f['has'] == (name == 'operator!=')
@@ -1202,6 +1226,8 @@ class Models:
             p = e.rv(args[0], st, fr)
             if isinstance(p, Rec) and p.t == 'setiter':
                 return p if name == 'operator->' else self.setiter_deref(st, p, n, fr)
+            if isinstance(p, Rec) and p.t == 'smapiter':
+                return p if name == 'operator->' else self.smapiter_deref(st, p, n, fr)
             if isinstance(p, Rec) and p.t == 'ssetiter':
                 if e.safety_on('bounds'): e.oblige(st, 'safety:dereferenced-set-iterator-is-not-end', z3.Not(p.f['end']), where=e.where(n, fr))
                 return p.f['value']
